@@ -267,14 +267,79 @@ func (s *scen) settle() []gdump.G {
 	return gs
 }
 
-// shutdownG finds the goroutine executing OrderedDaemon.shutdown.
-func shutdownG(gs []gdump.G) (gdump.G, bool) {
-	for _, g := range gs {
-		if g.Has("daemon.(*OrderedDaemon).shutdown") {
-			return g, true
+// shutView classifies, in one quiescent snapshot, the goroutines that take part
+// in a shutdown. Goroutines are identified only by (a) the harness' own actor
+// ids, (b) the harness' worker-function frame, (c) exported daemon frames
+// ((*OrderedDaemon).Shutdown / .ShutdownAndWait, which also matches the
+// Shutdown.gowrap wrapper), (d) "has a frame of / was created by package
+// hive.go/app/daemon", (e) goroutine states and standard-library frames.
+// Unexported daemon identifiers decide nothing.
+type shutView struct {
+	executing []gdump.G // parked in sync.WaitGroup.Wait: the goroutine that performs the shutdown
+	onceWait  int       // callers parked in sync.Once's mutex behind the executing one
+	odd       []gdump.G // shutdown callers / other daemon goroutines parked anywhere else
+	blind     string    // non-empty: the snapshot contradicts what the harness knows => INCONCLUSIVE
+}
+
+// inProgress: some goroutine is still inside a Shutdown/ShutdownAndWait call
+// (or is a left-over goroutine of the daemon that is not inside a handler).
+func (v shutView) inProgress() bool { return len(v.executing) > 0 || v.onceWait > 0 || len(v.odd) > 0 }
+
+const exportedShutdownFrame = "daemon.(*OrderedDaemon).Shutdown" // prefix of Shutdown, ShutdownAndWait, Shutdown.gowrapN
+
+func (s *scen) shutdownView(gs []gdump.G) shutView {
+	var v shutView
+	actorIDs := map[uint64]bool{}
+	for _, a := range s.actors {
+		actorIDs[a.ID()] = true
+	}
+	busyCaller := map[uint64]bool{}
+	for _, sc := range s.shut {
+		if sc.a.Busy() {
+			busyCaller[sc.a.ID()] = true
 		}
 	}
-	return gdump.G{}, false
+	seenCaller := 0
+	for _, g := range gs {
+		if g.State == "running" {
+			continue
+		}
+		caller := busyCaller[g.ID]
+		if !caller {
+			if actorIDs[g.ID] || g.Has("main.(*wk).fn") {
+				continue // other harness actors (registrar, runner, gated call), workers inside their handler
+			}
+			if !strings.Contains(g.Raw, "hive.go/app/daemon.") {
+				continue // not a goroutine of the daemon
+			}
+		} else {
+			seenCaller++
+			if !g.Has(exportedShutdownFrame) {
+				v.blind = fmt.Sprintf("busy shutdown caller (goroutine %d) shows no exported Shutdown/ShutdownAndWait frame", g.ID)
+			}
+		}
+		switch {
+		case strings.HasPrefix(g.State, "semacquire") && g.Has("sync.(*WaitGroup).Wait"):
+			v.executing = append(v.executing, g)
+		case strings.HasPrefix(g.State, "sync.Mutex.Lock") && g.Has("sync.(*Once).doSlow"):
+			v.onceWait++
+		default:
+			v.odd = append(v.odd, g)
+		}
+	}
+	if seenCaller != len(busyCaller) {
+		v.blind = fmt.Sprintf("%d shutdown callers are busy but only %d of them appear in the snapshot", len(busyCaller), seenCaller)
+	}
+	if v.onceWait > 0 && len(v.executing) == 0 && len(v.odd) == 0 {
+		v.blind = "callers wait in sync.Once but the goroutine performing the shutdown was not found"
+	}
+	if len(v.executing) > 1 {
+		v.blind = fmt.Sprintf("%d goroutines look like the one performing the shutdown", len(v.executing))
+	}
+	if len(v.executing) == 1 {
+		s.c.Count("shutdown_goroutine_identified", 1)
+	}
+	return v
 }
 
 func (s *scen) pickOrder(allowNew bool) (int, bool) {
@@ -382,7 +447,7 @@ func (s *scen) checkLate(gs []gdump.G) []gdump.G {
 	if l.w.cancelled() {
 		return gs
 	}
-	_, inProgress := shutdownG(gs)
+	inProgress := s.shutdownView(gs).inProgress()
 	s.violation("late-bgworker:leaked-uncancelled-worker", fmt.Sprintf("BackgroundWorker(%s, order %d) passed the IsStopped check, was accepted and its worker started while shutdown was in progress; no live worker of higher order is left, the process is quiescent (shutdown goroutine still parked: %v) and the worker's context is not cancelled", l.w.name, l.w.order, inProgress))
 	for _, sc := range s.shut {
 		if sc.wait && !sc.a.Busy() {
@@ -397,11 +462,17 @@ func (s *scen) checkLate(gs []gdump.G) []gdump.G {
 func (s *scen) checkShutdown(gs []gdump.G) []gdump.G {
 	gs = s.checkLate(gs)
 	live := s.liveWorkers()
-	if g, ok := shutdownG(gs); ok {
-		if !(strings.HasPrefix(g.State, "semacquire") && g.Has("sync.(*WaitGroup).Wait")) {
-			s.c.Inconclusive(fmt.Sprintf("cfg %d: shutdown goroutine parked in unexpected state %q", s.seed, g.State))
-			s.dirty = true
-		}
+	v := s.shutdownView(gs)
+	if v.blind != "" {
+		s.c.Inconclusive(fmt.Sprintf("cfg %d: cannot identify the shutdown goroutine: %s", s.seed, v.blind))
+		s.dirty = true
+	}
+	for _, g := range v.odd {
+		s.c.Inconclusive(fmt.Sprintf("cfg %d: shutdown caller / daemon goroutine %d parked in unexpected state %q", s.seed, g.ID, g.State))
+		s.dirty = true
+	}
+	if len(live) > 0 && s.started && len(v.executing) == 1 {
+		s.c.Count("shutdown_seen_waiting_for_live_workers", 1)
 	}
 	maxLive := 0
 	any := false
@@ -730,8 +801,7 @@ func (s *scen) run() bool {
 	for !s.dirty {
 		gs = s.checkShutdown(gs)
 		if s.late != nil && !s.late.released && s.late.mode == "mid" && step >= s.late.midAfter {
-			_, inProgress := shutdownG(gs)
-			s.releaseLate(!inProgress)
+			s.releaseLate(!s.shutdownView(gs).inProgress())
 			gs = s.settle()
 			continue
 		}
@@ -791,8 +861,7 @@ func (s *scen) run() bool {
 		}
 	}
 	if s.late != nil && s.late.mode == "mid" && !s.late.released {
-		_, inProgress := shutdownG(gs)
-		s.releaseLate(!inProgress)
+		s.releaseLate(!s.shutdownView(gs).inProgress())
 		gs = s.settle()
 	}
 	gs = s.checkLate(gs)
@@ -807,8 +876,11 @@ func (s *scen) run() bool {
 		gs = s.settle()
 	}
 	if !stalled && s.started {
-		if g, ok := shutdownG(gs); ok {
-			s.violation("hang:shutdown-parked-after-all-workers-returned", "every worker has returned and the process is quiescent, but the shutdown goroutine is still parked in "+g.State)
+		if v := s.shutdownView(gs); len(v.executing) > 0 {
+			s.violation("hang:shutdown-parked-after-all-workers-returned", "every worker has returned and the process is quiescent, but the goroutine performing the shutdown is still parked in "+v.executing[0].State+" (sync.WaitGroup.Wait)")
+			s.dirty = true
+		} else if v.blind != "" || len(v.odd) > 0 {
+			s.c.Inconclusive(fmt.Sprintf("cfg %d: after all workers returned: shutdown callers in an unidentified state (%s, %d odd)", s.seed, v.blind, len(v.odd)))
 			s.dirty = true
 		}
 	}
